@@ -42,3 +42,55 @@ Theorem C03_history : forall ops p, WF p ->
   Permutation (all_dropped rs p') (pool_ids p ++ all_created rs) /\
   NoDup (all_created rs) /\ (forall x, In x (all_created rs) -> (next_id p <= x)%Z) /\ WF p'.
 Proof. exact history_conserves. Qed.
+
+(* ---- the list-level meaning used by the pool model is the PROVED meaning of the low-level
+        hub models (pointer programs of sequence.rs, consumer/builder pipelines, const_transmute
+        regrouping); the iterator operations use Iter.v directly ---- *)
+From GA Require Import Builder Functional FunctionalProofs OwnTie.
+From GA Require SeqOps Flatten.
+
+Theorem C03_tie_lengthen_concat : forall l m x,
+  SeqOps.append l x = (SeqOps.Ok (l ++ [x]), []) /\
+  SeqOps.prepend l x = (SeqOps.Ok (x :: l), []) /\
+  SeqOps.concat l m = (SeqOps.Ok (l ++ m), []).
+Proof. intros l m x. exact (conj (tie_append l x) (conj (tie_prepend l x) (tie_concat l m))). Qed.
+
+Theorem C03_tie_shorten_split : forall l x r k,
+  (rev l = x :: r -> SeqOps.pop_back l = (SeqOps.Ok (rev r, x), [])) /\
+  SeqOps.pop_front (x :: r) = (SeqOps.Ok (x, r), []) /\
+  (k <= length l -> SeqOps.split k l = (SeqOps.Ok (firstn k l, skipn k l), [])).
+Proof. intros l x r k. exact (conj (tie_pop_back l x r) (conj (tie_pop_front x r) (tie_split k l))). Qed.
+
+Theorem C03_tie_remove : forall l idx x, nth_error l idx = Some x ->
+  SeqOps.remove (Z.of_nat idx) l = (SeqOps.Ok (x, list_remove idx l), []).
+Proof. exact tie_remove. Qed.
+
+Theorem C03_tie_swap_remove : forall l idx x, nth_error l idx = Some x ->
+  exists rest, SeqOps.swap_remove (Z.of_nat idx) l = (SeqOps.Ok (x, rest), []) /\
+               Permutation (x :: rest) l /\ Permutation (x :: list_swap_remove idx l) l.
+Proof. exact tie_swap_remove. Qed.
+
+Theorem C03_tie_map_clone : forall p l,
+  map_ true (fresh_fn (next_id p)) None l = (Ok (fresh p (length l)), map EMove l, map (fun x => [x]) l) /\
+  clone_ (fresh_fn (next_id p)) None l = (Ok (fresh p (length l)), [], map (fun x => [x]) l).
+Proof. intros p l. exact (conj (tie_map p l) (tie_clone p l)). Qed.
+
+Theorem C03_tie_zip : forall p l m, length l = length m ->
+  exists calls,
+  zip_ true true (fresh_fn (next_id p)) None l m =
+    (Ok (fresh p (length l)), calls, map (fun q : Z * Z => [fst q; snd q]) (combine l m)) /\
+  Permutation (releases calls) (l ++ m).
+Proof. exact tie_zip. Qed.
+
+Theorem C03_tie_collect : forall l,
+  try_from_iter (length l) (vec_src l) = (Ok l, [], S (length l)).
+Proof. exact tie_collect. Qed.
+
+Theorem C03_tie_try_collect_wrong : forall l n, n <> length l ->
+  let '(o, e, p) := try_from_iter n (vec_src l) in
+  o = Err /\ Permutation (pulled (resp (vec_src l)) 0 p) (releases e).
+Proof. exact tie_try_collect_wrong. Qed.
+
+Theorem C03_tie_flatten2 : forall s l m, length l = length m ->
+  Flatten.flatten_owned s (length l) 2 [l; m] = Ret (l ++ m).
+Proof. exact tie_flatten2. Qed.
